@@ -57,6 +57,7 @@ func FuzzParseDERSignature(f *testing.F) {
 		if len(data) > 255 {
 			data = data[:255]
 		}
+		fuzzCases.Add(1)
 		nt := len(data) > 0 && data[0] == 0x30
 		recFuzzDER.Case(nt, "", ev.Hash(data), func() any { return fmt.Sprintf("%x", data) })
 		sig := checkDERBytes(t, recFuzzDER, data)
@@ -65,6 +66,9 @@ func FuzzParseDERSignature(f *testing.F) {
 		}
 		recFuzzDER.Count("accepted", 1)
 		h := sha256.Sum256(data)
+		if h[2]&3 != 0 {
+			return // the 2 ms reference verification runs on a quarter of the accepted inputs
+		}
 		q := fuzzKeys[int(h[0])%len(fuzzKeys)]
 		msg := h[:]
 		if h[1]&1 == 0 {
@@ -118,6 +122,7 @@ func FuzzParsePubKey(f *testing.F) {
 		if len(data) > 80 {
 			data = data[:80]
 		}
+		fuzzCases.Add(1)
 		nt := len(data) == 32 || len(data) == 33 || len(data) == 65
 		recFuzzPub.Case(nt, "", ev.Hash(data), func() any { return fmt.Sprintf("%x", data) })
 		checkPubKeyBytes(t, data)
@@ -151,6 +156,7 @@ func FuzzSchnorrParseSignature(f *testing.F) {
 		if len(sig) > 70 {
 			sig = sig[:70]
 		}
+		fuzzCases.Add(1)
 		recFuzzSchnorr.Case(len(sig) == 64, "", ev.Hash(sig, msg, pk), func() any { return fmt.Sprintf("sig=%x msg=%x pk=%x", sig, msg, pk) })
 		sg, err := schnorr.ParseSignature(sig)
 		want := len(sig) == 64 && fromBytes(sig[:32]).Cmp(secp.P) < 0 && fromBytes(sig[32:]).Cmp(secp.N) < 0
